@@ -25,13 +25,15 @@ STRUCTS = {
            F("last", ("i", 64), dup="last", miss=("def", "(none)"), token=0x2d85), F("req", "bool", token=0x2d86)],
     "DG": [F("kind", "str", token=0x00e1), F("name", "str", miss=("def", "(str -)"), token=0x001b), F("nums", ("i", 32), dup="dup", token=0x0165),
            F("flag", "bool", token=0x02ff)],
+    "DH": [F("cores", "str", key="core", dup="dup"), F("checksum", "str", key="chk", dup="last"), F("opt_q", ("u", 32), miss=("def", "(none)")),
+           F("opt_c", "str", miss=("def", "(none)")), F("count", ("u", 32), key="n", miss=("def", "(u 0)"))],
     "DSub": [F("id", ("u", 32)), F("tag", "str", miss=("def", "(str -)")), F("vals", ("u", 8), key="val", dup="dup")],
     "DC": [F("name", "str"), F("subs", ("derived", "DSub"), key="sub", dup="dup"), F("opt_sub", ("derived", "DSub"), miss=("def", "(none)")),
            F("date", "date", dup="last", miss=("def", "(date 1444 11 11 0)")), F("level", ("u", 8), key="lvl", miss=("def", "(u 7)"))],
     "DD": [F("a", ("u", 8)), F("b", "str"), F("c", "bool")],
     "DE": [F("n", ("i", 64), dup="dup"), F("t", "str", dup="last", miss=("def", "(none)")), F("f", "f32", dup="dup"), F("z", "bool", miss=("def", "(none)"))],
 }
-OPTION_FIELDS = {("DA", "first"), ("DB", "last"), ("DC", "opt_sub"), ("DE", "t"), ("DE", "z")}
+OPTION_FIELDS = {("DH", "opt_q"), ("DH", "opt_c"), ("DA", "first"), ("DB", "last"), ("DC", "opt_sub"), ("DE", "t"), ("DE", "z")}
 
 
 # ------------------------------------------------------------------------------------------ the spec of the field semantics
